@@ -105,7 +105,12 @@ func main() {
 		h.Process(c5) // the disconnected join now double-spends
 	})
 
-	n := run.N(18, 2500)
+	// ---- corpus: several inputs on one parent (mixed spent / unspent), and a
+	// reorganisation in the middle of a cache-missing transaction lookup
+	history(run, st, sh, next(), rng.Fork(), func(h *ledgerh.H) { h.CorpusSiblings() })
+	history(run, st, sh, next(), rng.Fork(), func(h *ledgerh.H) { h.CorpusRacyLookup() })
+
+	n := run.N(16, 2500)
 	for i := 0; i < n; i++ {
 		steps := 8 + rng.Intn(14)
 		if run.Thorough() {
